@@ -348,8 +348,17 @@ func Probes(s *Set, alpha []byte, r Rand, max int) [][]byte {
 	}
 	for i := r.Intn(stride); i < len(s.Words); i += stride {
 		w := s.Words[i]
-		for k := 0; k < len(w); k++ {
-			add(w[:k])
+		if len(w) <= 32 {
+			for k := 0; k < len(w); k++ {
+				add(w[:k])
+			}
+		} else { // a long word: a few of its prefixes
+			for _, k := range []int{1, 2, len(w) / 2, len(w) - 2, len(w) - 1} {
+				add(w[:k])
+			}
+			for k := 0; k < 6; k++ {
+				add(w[:r.Intn(len(w))])
+			}
 		}
 		add(append(append([]byte{}, w...), alpha[r.Intn(len(alpha))]))
 		if found {
